@@ -248,9 +248,15 @@ async fn apply_remote_deletes(
             for rel in dels {
                 let _ = write!(list, "{}/{}\0", remote_root, rel.display());
             }
+            // The list is staged on the remote and only acted on when all of it arrived:
+            // when the sender dies mid-list, a bare `xargs -0` sees EOF and would take the
+            // cut-off tail of a path for a file name of its own.
             let mut child = tokio::process::Command::new("ssh")
                 .arg(host)
-                .arg("xargs -0 rm -f --")
+                .arg(format!(
+                    "l=$(mktemp) && cat > \"$l\" && [ \"$(wc -c < \"$l\")\" -eq {} ] && xargs -0 rm -f -- < \"$l\"; r=$?; rm -f \"$l\"; exit $r",
+                    list.len()
+                ))
                 .stdin(std::process::Stdio::piped())
                 .stdout(std::process::Stdio::null())
                 .stderr(std::process::Stdio::piped())
